@@ -110,6 +110,13 @@ func c15One(c *fw.Ctx, kind string, src []byte) {
 			sharedFset = fset
 			return decorator.NewDecorator(fset).ParseFile("in.go", src, parser.AllErrors)
 		}},
+		{"Decorator(zero-value goast).Parse", func() (*dst.File, error) {
+			// resolvers made as literals: the documented fallback to the guessing resolver applies
+			if len(src)%2 == 0 {
+				return decorator.NewDecoratorWithImports(token.NewFileSet(), "example.com/self", &goast.DecoratorResolver{}).Parse(src)
+			}
+			return decorator.NewDecoratorWithImports(token.NewFileSet(), "example.com/self", goast.WithResolver(nil)).Parse(src)
+		}},
 		{"Decorator(goast).Parse", func() (*dst.File, error) {
 			// the import-resolving decorator reads the import declarations of the (possibly broken) file
 			return decorator.NewDecoratorWithImports(token.NewFileSet(), "example.com/self", goast.New()).Parse(src)
@@ -156,7 +163,7 @@ func c15One(c *fw.Ctx, kind string, src []byte) {
 		// printing a returned tree must not panic (an error is fine); a tree decorated with import
 		// management is printed with import management (printing it without is documented misuse)
 		var buf bytes.Buffer
-		if e.name == "Decorator(goast).Parse" {
+		if e.name == "Decorator(goast).Parse" || e.name == "Decorator(zero-value goast).Parse" {
 			if sig, detail := fw.Try(func() {
 				_ = decorator.NewRestorerWithImports("example.com/self", guess.New()).Fprint(&buf, f)
 			}); sig != "" {
